@@ -25,7 +25,7 @@ import enum
 import json
 import re
 import sys
-from typing import Annotated, Any, Dict, List, Union
+from typing import Annotated, Any, Dict, List, Optional, Union
 
 from harness import core
 
@@ -231,8 +231,6 @@ def kind_of_value(r: Any, vts: list[Any]) -> tuple[int, str]:
 
 
 def optional_holder(u: Any) -> type:
-    from typing import Optional
-
     h = dataclasses.make_dataclass("HolderO", [("u", Optional[u], dataclasses.field(default=None))])
     h.Meta = type("Meta", (), {"key_transform_with_load": {"u": "u"}, "key_transform_with_dump": {"u": "u"}})
     return h
@@ -243,6 +241,27 @@ def _cases(job: dict, u: Any, vts: list[Any]) -> list[dict]:
     holder.Meta = type("Meta", (), {"key_transform_with_load": {"u": "u"}, "key_transform_with_dump": {"u": "u"}})
     positions = job.get("positions", ["top", "field", "list"])
     oholder = optional_holder(u) if "opt" in positions else None
+    # does the union TYPE OBJECT that Python hands out at a wrapper position still list the members in this union's
+    # order?  (typing caches List[X] / Optional[X] / Dict[str, X] by equality and Union[A, B] == Union[B, A])
+    import typing
+
+    def members(t: Any) -> list[Any]:
+        if typing.get_origin(t) is Annotated:
+            t = typing.get_args(t)[0]
+        out: list[Any] = []
+        for a in typing.get_args(t):
+            if a is type(None):
+                continue
+            out += members(a) if typing.get_origin(a) in (Annotated, Union) else [a]
+        return out
+
+    at = {"top": lambda: u, "field": lambda: u, "list": lambda: typing.get_args(List[u])[0], "opt": lambda: Optional[u],
+          "map": lambda: typing.get_args(Dict[str, u])[1], "rows": lambda: typing.get_args(typing.get_args(List[List[u]])[0])[0]}
+    want = [t for t in vts]
+    torder = {}
+    for pos in positions:
+        got = members(at[pos]()) if len(vts) > 1 else want
+        torder[pos] = "declared" if got == want else "collapsed"
     res = []
     for c in job["cases"]:
         payload = from_tree(c["payload"])
@@ -250,28 +269,48 @@ def _cases(job: dict, u: Any, vts: list[Any]) -> list[dict]:
             r = run_case(u, vts, holder, payload, pos, oholder)
             r["cid"] = c["cid"]
             r["pos"] = pos
+            r["torder"] = torder[pos]
             res.append(r)
     return res
 
 
 def run_history_job(job: dict) -> dict:
-    """job["history"] == {"vars": [...]}: another union U1 with the SAME discriminator (property, values, class names
-    Var1..Varn) but different variant classes is decoded first, through the same converter module, then this union.
-    `fresh` is what the converter does with this union in a fresh process."""
+    """Decoding is a HISTORY inside one process.  `fresh` = this union decoded in a fresh process state; `res` = this
+    union decoded after ANOTHER union U1 went through the same converter module (nothing is reset in between):
+      history.kind == "classes": U1 has the same discriminator (property, values, class names Var1..Varn) but different
+                                 variant classes (two clients sharing one core);
+      history.kind == "perm":    U1 is an undiscriminated union over the SAME variant classes in reversed order (one
+                                 document holding several unions over one variant set; `Union[A, B] == Union[B, A]`)."""
+    kind = job["history"].get("kind", "classes")
+    positional = kind == "classes"
     fresh_converter()
-    u2, vts2 = build_union(job, positional=True)
+    u2, vts2 = build_union(job, positional=positional)
     fresh = _cases(job, u2, vts2)
     fresh_converter()
-    h = dict(job)
-    h["vars"] = job["history"]["vars"]
-    u1, _ = build_union(h, positional=True)
-    for tag, _i in job["disc"]["mapping"]:
-        for body in ({job["disc"]["prop"]: tag}, {job["disc"]["prop"]: tag, "a": "va", "b": "vb"}):
-            try:
-                structure_from_dict(body, u1)
-            except Exception:  # noqa: BLE001
-                pass
-    u2, vts2 = build_union(job, positional=True)
+    if kind == "classes":
+        h = dict(job)
+        h["vars"] = job["history"]["vars"]
+        u1, _ = build_union(h, positional=True)
+        for tag, _i in job["disc"]["mapping"]:
+            for body in ({job["disc"]["prop"]: tag}, {job["disc"]["prop"]: tag, "a": "va", "b": "vb"}):
+                try:
+                    structure_from_dict(body, u1)
+                except Exception:  # noqa: BLE001
+                    pass
+    else:
+        _, vts = build_union(job)
+        u1 = Union[tuple(reversed(vts))] if len(vts) > 1 else vts[0]
+        if job.get("nullable"):
+            u1 = u1 | None
+        h1 = dataclasses.make_dataclass("Holder1", [("u", u1)])
+        for c in job["cases"]:
+            payload = from_tree(c["payload"])
+            for typ, body in ((u1, payload), (h1, {"u": payload}), (List[u1], [payload]), (Optional[u1], payload), (Dict[str, u1], {"k": payload})):
+                try:
+                    structure_from_dict(body, typ)
+                except Exception:  # noqa: BLE001
+                    pass
+    u2, vts2 = build_union(job, positional=positional)
     return {"id": job["id"], "res": _cases(job, u2, vts2), "fresh": fresh}
 
 
